@@ -21,6 +21,14 @@ IR_ARITH = {"ADD", "SUB", "MUL", "DIV", "CMP_EQ", "CMP_LT", "CMP_GT", "CMP_LE", 
 WASM_ARITH = {"add", "sub", "mul", "div_s", "div_u", "div", "eq", "ne", "lt_s", "lt_u", "gt_s", "gt_u", "le_s", "le_u", "ge_s", "ge_u", "lt", "gt", "le", "ge"}
 
 
+def safe_enc(v, t):
+    """argument for the TLA+ engine; a value outside its exact domain (beyond 2^30) is passed as 'ood' and the call is then judged through wasmtime"""
+    try:
+        return A.enc(v, t)
+    except AssertionError:
+        return {"t": "ood"}
+
+
 def work(items):
     out = []
     for ident, prog, cls, seed in items:
@@ -59,7 +67,7 @@ def run(ctx, args):
     batch = []
     for r in emitted:
         batch.append({"id": r["id"], "bytes": r["bytes"],
-                      "calls": [{"name": list(c["fn"].encode()), "args": [A.enc(c["args"][p["n"]], p["t"]) for p in c["params"]]} for c in r["calls"]]})
+                      "calls": [{"name": list(c["fn"].encode()), "args": [safe_enc(c["args"][p["n"]], p["t"]) for p in c["params"]]} for c in r["calls"]]})
     verdict = wasmlib.run_wasmbinary(ctx, batch)
     counts = {}
     agree_calls = 0
@@ -71,7 +79,9 @@ def run(ctx, args):
             continue
         v = verdict[r["id"]]
         base = {"source": r["src"], "id": r["id"], "class": r["cls"]}
-        wt = wasmlib.wasmtime_check(bytes(r["bytes"]), [(c["fn"], [c["args"][p["n"]] for p in c["params"]]) for c in r["calls"]])
+        def i32(x):      # the engine's API takes i32 arguments as signed numbers
+            return x - 2 ** 32 if isinstance(x, int) and x >= 2 ** 31 else x
+        wt = wasmlib.wasmtime_check(bytes(r["bytes"]), [(c["fn"], [i32(c["args"][p["n"]]) for p in c["params"]]) for c in r["calls"]])
         if v["status"] == "invalid":
             if wt["valid"]:
                 raise common.Machinery(f"WasmBinary rejects ({v['why']}) a module wasmtime accepts: {r['id']}")
@@ -121,7 +131,7 @@ def run(ctx, args):
                     except (OverflowError, struct.error):
                         same = True      # outside f32: not judged
                 else:
-                    same = (int(want) & 0xFFFFFFFF) == (int(wres) & 0xFFFFFFFF) if abs(want) < 2 ** 31 else True
+                    same = (int(want) & 0xFFFFFFFF) == (int(wres) & 0xFFFFFFFF)        # ints exactly as 32-bit values
                 if not same:
                     ctx.violation("value-differs-wasmtime", f"{c['fn']}({c['args']}): VM {vm['ret_repr']}, module (wasmtime) {wres!r}", case)
                     ok_here = False
